@@ -6,7 +6,7 @@ import itertools
 import re
 
 from ..core import AnalysisError
-from ..e2e import Outcome, alternatives, compile_text, list_fact
+from ..e2e import Outcome, alternatives, compile_text, list_fact, prefetch
 from ..interp import Raised, call_function
 from ..miniev import Unsupported
 
@@ -29,8 +29,42 @@ def _fill(template, mand=' ', opt=''):
     return template.replace(MAND, mand).replace(OPT, opt)
 
 
+def _refused(rule, text, outcome):
+    """A text of the table's own pool - a valid selector by the Selectors specification - is refused by the parser."""
+    if any(f.key == f'valid selector `{text}` is refused' for f in rule.findings):
+        return
+    rule.obligation(False)
+    rule.violation(f'valid selector `{text}` is refused', 'soupsieve/css_parser.py',
+                   f'{text!r} is a valid selector, but compiling it raises {outcome.raises}' + (f' ({outcome.message})' if outcome.message else ''))
+
+
 def _same(a: Outcome, b: Outcome):
     return a == b
+
+
+def _template_texts(t, deep):
+    slots = [(m.start(), m.group()) for m in re.finditer(f'[{MAND}{OPT}]', t)]
+    texts = []
+    for i, (pos, kind) in enumerate(slots):
+        for v in (MAND_VARIANTS if kind == MAND else OPT_VARIANTS):
+            parts = []
+            k = 0
+            for ch in t:
+                if ch in (MAND, OPT):
+                    parts.append(v if k == i else (' ' if ch == MAND else ''))
+                    k += 1
+                else:
+                    parts.append(ch)
+            texts.append(''.join(parts))
+    for mv, ov in itertools.product(MAND_VARIANTS if deep else MAND_VARIANTS[:7:2] + MAND_VARIANTS[8:9], OPT_VARIANTS if deep else OPT_VARIANTS[1::3]):
+        texts.append(_fill(t, mv, ov))
+    return list(dict.fromkeys(texts))
+
+
+def _respelling_texts(deep):
+    for t in TEMPLATES:
+        yield _fill(t)
+        yield from _template_texts(t, deep)
 
 
 def respelling_table(ctx, rule, deep=False):
@@ -38,28 +72,14 @@ def respelling_table(ctx, rule, deep=False):
     spelling (one space where white space is required, nothing where it is optional)."""
     bad = None
     n = 0
+    prefetch(ctx, list(_respelling_texts(deep)))
     for t in TEMPLATES:
         base_text = _fill(t)
         base = compile_text(ctx, base_text)
         if base.raises:
-            raise AnalysisError(f'respelling table: the canonical text {base_text!r} does not compile ({base.raises}: {base.message})')
-        slots = [(m.start(), m.group()) for m in re.finditer(f'[{MAND}{OPT}]', t)]
-        texts = []
-        # one slot at a time
-        for i, (pos, kind) in enumerate(slots):
-            for v in (MAND_VARIANTS if kind == MAND else OPT_VARIANTS):
-                parts = []
-                k = 0
-                for j, ch in enumerate(t):
-                    if ch in (MAND, OPT):
-                        parts.append(v if k == i else (' ' if ch == MAND else ''))
-                        k += 1
-                    else:
-                        parts.append(ch)
-                texts.append(''.join(parts))
-        # every slot the same way
-        for mv, ov in itertools.product(MAND_VARIANTS if deep else MAND_VARIANTS[:7:2] + MAND_VARIANTS[8:9], OPT_VARIANTS if deep else OPT_VARIANTS[1::3]):
-            texts.append(_fill(t, mv, ov))
+            _refused(rule, base_text, base)
+            continue
+        texts = _template_texts(t, deep)
         for text in dict.fromkeys(texts):
             got = compile_text(ctx, text)
             n += 1
@@ -129,7 +149,8 @@ def equivalent_spellings_table(ctx, rule):
         cust = custom if '--' in canon else None
         base = compile_text(ctx, canon, custom=cust)
         if base.raises:
-            raise AnalysisError(f'spellings table: the canonical text {canon!r} does not compile ({base.raises}: {base.message})')
+            _refused(rule, canon, base)
+            continue
         for text in others:
             got = compile_text(ctx, text, custom=cust)
             n += 1
@@ -155,11 +176,21 @@ CYCLE = set(zip(POOL, POOL[1:] + POOL[:1]))
 def list_union_table(ctx, rule, deep=False):
     """`A, B` compiles to the alternatives of A followed by those of B, and so do the lists inside :is(), :where(), :not():
     no alternative changes how a sibling alternative is compiled."""
+    seps_ = SEPARATORS if deep else SEPARATORS[2:6]
+    pre = list(POOL)
+    for a_, b_ in itertools.product(POOL, POOL if deep else POOL[::2] + POOL[1:2]):
+        pre.append(f'{a_}, {b_}')
+        if (a_, b_) in CYCLE:
+            pre += [f'{a_}{sp}{b_}' for sp in seps_]
+            for w in (':is(%s)', ':not(%s)', ':where(%s)'):
+                pre += [w % f'{a_}, {b_}', w % a_, w % b_] + [w % f'{a_}{sp}{b_}' for sp in seps_]
+    prefetch(ctx, pre)
     single = {}
     for a in POOL:
         o = compile_text(ctx, a)
         if o.raises:
-            raise AnalysisError(f'list table: {a!r} does not compile ({o.raises})')
+            _refused(rule, a, o)
+            return
         single[a] = alternatives(o.ir)
     bad = None
     n = 0
@@ -217,7 +248,7 @@ def list_union_table(ctx, rule, deep=False):
 
 def _esc(ctx, s):
     try:
-        return call_function(ctx, 'css_parser.escape', [s], {}, {}, None)
+        return call_function(ctx, 'css_parser.escape', [s], {}, {}, None, {'regex_engine': True, 'persist': ctx._cache.setdefault('e2e-persist', {})})
     except Raised as e:
         return Outcome(raises=e.exc_name)
     except Unsupported as e:
@@ -237,17 +268,27 @@ def escape_roundtrip_table(ctx, rule):
     strings += ['', '-', '--', '-0', '0a', 'a b c', '\\61', 'a\\', '\x00\x00', 'x' * 40]
     bad = None
     n = 0
+    encs = {}
+    pre = []
+    for s in dict.fromkeys(strings):
+        if not s:
+            continue
+        encs[s] = _esc(ctx, s)
+        if not isinstance(encs[s], Outcome):
+            lit_ = '"' + ''.join(c if c not in '"\\\n\r\f' and c != '\x00' else ('\\%x ' % ord(c) if c != '\x00' else '\ufffd') for c in s) + '"'
+            pre += ['#' + encs[s], '.' + encs[s], encs[s], '[a=' + encs[s] + ']', '[a=' + lit_ + ']']
+    prefetch(ctx, pre)
     for s in dict.fromkeys(strings):
         if not s:
             continue
         want = s.replace('\x00', '\ufffd')
-        enc = _esc(ctx, s)
+        enc = encs[s]
         if isinstance(enc, Outcome):
             if bad is None:
                 bad = (s, None, f'escape() raises {enc.raises}')
             continue
         for prefix, field in (('#', 'ids'), ('.', 'classes'), ('', 'tag')):
-            got = compile_text(ctx, prefix + enc, cache=False)
+            got = compile_text(ctx, prefix + enc)
             n += 1
             problem = None
             if got.raises:
@@ -270,9 +311,9 @@ def escape_roundtrip_table(ctx, rule):
             if problem and bad is None:
                 bad = (s, prefix + enc, problem)
         # attribute value
-        got = compile_text(ctx, '[a=' + enc + ']', cache=False)
+        got = compile_text(ctx, '[a=' + enc + ']')
         lit = '"' + ''.join(c if c not in '"\\\n\r\f' and c != '\x00' else ('\\%x ' % ord(c) if c != '\x00' else '\ufffd') for c in s) + '"'
-        ref = compile_text(ctx, '[a=' + lit + ']', cache=False)
+        ref = compile_text(ctx, '[a=' + lit + ']')
         n += 1
         if not ref.raises and got != ref and bad is None:
             bad = (s, '[a=' + enc + ']', f'{"raises " + got.raises if got.raises else "compiles to a different structure"} than [a={lit}]')
@@ -308,8 +349,9 @@ def error_type_table(ctx, rule, depth=2, custom_too=True):
     pos_bad = None
     n = 0
     kinds = {}
+    prefetch(ctx, texts)
     for text in dict.fromkeys(texts):
-        got = compile_text(ctx, text, cache=False)
+        got = compile_text(ctx, text)
         n += 1
         kinds[got.raises or 'compiles'] = kinds.get(got.raises or 'compiles', 0) + 1
         if got.raises and got.raises not in ALLOWED and bad is None:
